@@ -42,11 +42,25 @@ type scriptedReader struct {
 	reads  int
 	idle   chan struct{} // non-nil: signal that every chunk has been processed, then block
 	resume chan struct{}
+	// failData: the failing Read returns these bytes TOGETHER with errFailingRead
+	failData   []byte
+	failed     bool
+	afterError bool // Read was called again after the failing Read: the error was ignored
 }
+
+var errFailingRead = fmt.Errorf("harness: read failed")
 
 var errIdleInput = fmt.Errorf("harness: input went away")
 
 func (s *scriptedReader) Read(p []byte) (int, error) {
+	if len(s.chunks) == 0 && s.failData != nil {
+		if s.failed {
+			s.afterError = true
+			return 0, io.EOF
+		}
+		s.failed = true
+		return copy(p, s.failData), errFailingRead
+	}
 	if len(s.chunks) == 0 {
 		if s.idle != nil {
 			// an idle terminal: the reader asks for more, nothing comes
@@ -69,10 +83,16 @@ func (s *scriptedReader) Read(p []byte) (int, error) {
 // (eof) or by an input that stays open and silent until the reader fails
 // with an unrelated error.
 func implReader(chunks [][]byte, eof bool) (msgs []string, status string) {
+	return implReaderX(chunks, eof, nil)
+}
+
+// implReaderX: with failData non-nil the last Read returns failData together with a
+// non-EOF error (the io.Reader contract allows n > 0 with an error).
+func implReaderX(chunks [][]byte, eof bool, failData []byte) (msgs []string, status string) {
 	cp := make([][]byte, len(chunks))
 	copy(cp, chunks)
-	rd := &scriptedReader{chunks: cp, final: io.EOF}
-	if !eof {
+	rd := &scriptedReader{chunks: cp, final: io.EOF, failData: failData}
+	if !eof && failData == nil {
 		rd.idle = make(chan struct{})
 		rd.resume = make(chan struct{})
 	}
@@ -110,6 +130,9 @@ func implReader(chunks [][]byte, eof bool) (msgs []string, status string) {
 			}
 			msgs = append(msgs, d)
 		case st := <-done:
+			if rd.afterError {
+				return msgs, "read-after-error"
+			}
 			return msgs, st
 		case <-timeout:
 			return msgs, "stall"
@@ -271,10 +294,17 @@ func streamDetect(c *corrOut, g *inputGen, r *rng, n int, thorough bool) {
 		emit(b, true)
 	}
 	// (d) exhaustive short buffers
+	c.scope = "C09"
 	both(nil)
 	for a := 0; a < 256; a++ {
+		if a < 0x80 {
+			c.scope = "C08 C09" // a control byte or a printable character on its own
+		} else {
+			c.scope = "C09"
+		}
 		both([]byte{byte(a)})
 	}
+	c.scope = "C09" // arbitrary short buffers: totality only
 	firsts := []byte{0x1b, 0, ' ', 'a', 0x7f, 0xc3, 0xe0, 0xed, 0xf0, 0xf4, 0x80, 0xff, '['}
 	if thorough {
 		firsts = make([]byte, 256)
@@ -309,6 +339,10 @@ func streamDetect(c *corrOut, g *inputGen, r *rng, n int, thorough bool) {
 	for i := range g.doc.Sequences {
 		for _, alt := range []bool{false, true} {
 			e := g.evDocKey(i, alt)
+			c.scope = "C08 C09"
+			if alt && g.doc.Sequences[i].Alt {
+				c.scope = "C09"
+			}
 			out := emit(e.bytes, false)
 			want := fmt.Sprintf("%d %s", len(e.bytes), e.want)
 			if alt && g.doc.Sequences[i].Alt {
@@ -318,6 +352,7 @@ func streamDetect(c *corrOut, g *inputGen, r *rng, n int, thorough bool) {
 				c.addFinding(finding{Property: "C08", Class: "new", What: "documented key sequence decodes wrongly when alone",
 					Input: "0 " + hexOf(e.bytes), Expected: want, Observed: out})
 			}
+			c.scope = "C09" // followed by junk: totality only
 			both(append(append([]byte(nil), e.bytes...), malformed(r, r.rangeIn(1, 4))...))
 		}
 	}
@@ -327,7 +362,7 @@ func streamDetect(c *corrOut, g *inputGen, r *rng, n int, thorough bool) {
 		for _, rel := range []bool{false, true} {
 			x, y := coords[r.intn(len(coords))], coords[r.intn(len(coords))]
 			e := evSGR(code, x, y, rel)
-			tail := malformed(r, r.intn(3))
+			tail := g.mouseTail(c, r)
 			out := emit(append(append([]byte(nil), e.bytes...), tail...), r.chance(1, 2))
 			want := fmt.Sprintf("%d %s", len(e.bytes), e.want)
 			if out != want {
@@ -337,7 +372,7 @@ func streamDetect(c *corrOut, g *inputGen, r *rng, n int, thorough bool) {
 		}
 		if code >= 32 {
 			e := evX10(byte(code), byte(r.rangeIn(33, 255)), byte(r.rangeIn(33, 255)))
-			tail := malformed(r, r.intn(3))
+			tail := g.mouseTail(c, r)
 			out := emit(append(append([]byte(nil), e.bytes...), tail...), r.chance(1, 2))
 			want := fmt.Sprintf("%d %s", len(e.bytes), e.want)
 			if out != want {
@@ -347,6 +382,7 @@ func streamDetect(c *corrOut, g *inputGen, r *rng, n int, thorough bool) {
 		}
 	}
 	// huge numeric parameters
+	c.scope = "C09"
 	for _, s := range []string{"\x1b[<99999999999999999999;1;1M", "\x1b[<0;18446744073709551616;9223372036854775808m",
 		"\x1b[<0;9223372036854775807;9223372036854775806M", "\x1b[<00000;0;0M", "\x1b[<1;2;3", "\x1b[<1;2;3X", "\x1b[<;;M", "\x1b[<x1;2;3Mzz",
 		"\x1b[<0;33\x1b[<0;33;17M", "\x1b[<;1;2;3m!", "\x1b[<abc 10;20;30Mtail", "\x1b[<1;2\r3;4;5M"} {
@@ -361,10 +397,15 @@ func streamDetect(c *corrOut, g *inputGen, r *rng, n int, thorough bool) {
 	}
 	// random: structured, mutated, malformed
 	for c.count < n {
+		c.scope = "C09"
 		switch r.intn(4) {
 		case 0:
 			evs := g.randSegment(r, r.rangeIn(1, 3))
-			emit(concatEvents(evs), r.chance(1, 2))
+			more := r.chance(1, 2)
+			if !more {
+				c.scope = "C08 C09 C10 C11" // well-formed events read together
+			}
+			emit(concatEvents(evs), more)
 		case 1:
 			evs := g.randSegment(r, r.rangeIn(1, 2))
 			emit(mutate(r, concatEvents(evs)), r.chance(1, 2))
@@ -378,6 +419,21 @@ func streamDetect(c *corrOut, g *inputGen, r *rng, n int, thorough bool) {
 			}
 		}
 	}
+}
+
+// mouseTail: what follows a mouse report in the detect stream: nothing, a well-formed
+// event (in scope of C11: "embedded among other events") or junk (totality only).
+func (g *inputGen) mouseTail(c *corrOut, r *rng) []byte {
+	switch r.intn(3) {
+	case 0:
+		c.scope = "C09 C11"
+		return nil
+	case 1:
+		c.scope = "C09 C11"
+		return g.randEvent(r).bytes
+	}
+	c.scope = "C09"
+	return malformed(r, r.rangeIn(1, 3))
 }
 
 // ---- the `reader` stream ----------------------------------------------------
@@ -396,6 +452,17 @@ func (g *inputGen) checkExpect(c *corrOut, prop, what string, chunks [][]byte, w
 			continue // a full last read legitimately holds an open event back while the input stays open
 		}
 		line, _, _ := implReaderLine(chunks, eof)
+		c.scope = prop + " C09"
+		switch {
+		case strings.Contains(what, "event sgr") || strings.Contains(what, "event x10"):
+			c.scope += " C11"
+		case strings.Contains(what, "event paste"):
+			c.scope += " C10"
+		case strings.Contains(what, "event "):
+			c.scope += " C08"
+		case strings.Contains(what, "well-formed events"):
+			c.scope += " C08 C10 C11 C15"
+		}
 		c.emit(readerLine(chunks, eof), line, "structured:"+what)
 		if line != exp {
 			c.addFinding(finding{Property: prop, Class: "new", What: what, Input: readerLine(chunks, eof), Expected: exp, Observed: line})
@@ -556,6 +623,29 @@ func streamReader(c *corrOut, g *inputGen, r *rng, n int, thorough bool) {
 			}
 		}
 	}
+	// C10: every one-byte payload and every two-byte payload over the branch alphabet (the
+	// characters that are keys of their own when typed: space, NUL, DEL, ESC, ...), in one read
+	// and with the payload in a read of its own
+	{
+		pre, post := g.evRunes([]rune{'a'}), g.evRunes([]rune{'x'})
+		var payloads [][]byte
+		for b := 0; b < 256; b++ {
+			payloads = append(payloads, []byte{byte(b)})
+		}
+		for _, a := range branchBytes[:18] {
+			for _, b := range branchBytes[:18] {
+				payloads = append(payloads, []byte{a, b})
+			}
+		}
+		for _, pl := range payloads {
+			p := g.evPaste(pl)
+			evs := []event{pre, p, post}
+			all := concatEvents(evs)
+			g.checkExpect(c, "C10", "paste of a one- or two-byte payload", [][]byte{all}, expectedOf(evs, kr))
+			head := len(pre.bytes) + 6
+			g.checkExpect(c, "C10", "paste of a one- or two-byte payload", [][]byte{all[:head], pl, all[head+len(pl):]}, expectedOf(evs, kr))
+		}
+	}
 	// random well-formed segments, read whole (short read) or as full reads
 	for c.count < n*6/10 {
 		evs := g.randSegment(r, r.rangeIn(1, 12))
@@ -601,7 +691,37 @@ func streamReader(c *corrOut, g *inputGen, r *rng, n int, thorough bool) {
 			chunks = append(chunks, nil) // a Read that returns 0, nil
 		}
 		eof := r.chance(1, 2)
+		if len(chunks) > 0 && r.chance(1, 8) {
+			// the last Read returns its bytes together with a (non-EOF) error; half of the
+			// time a full buffer (whose end may look like the beginning of an event)
+			last := chunks[len(chunks)-1]
+			if r.chance(1, 2) {
+				last = append(append([]byte(nil), last...), make([]byte, 256)...)[:256]
+				for i := range last {
+					if last[i] == 0 {
+						last[i] = 'a' + byte(i%26)
+					}
+				}
+				if r.chance(1, 2) {
+					copy(last[254:], "\x1b[")
+				}
+			}
+			msgs, st := implReaderX(chunks[:len(chunks)-1], false, last)
+			line := strings.Join(msgs, " | ")
+			if st != "ok" {
+				line = st
+			}
+			op := "X" + strings.TrimPrefix(readerLine(append(append([][]byte(nil), chunks[:len(chunks)-1]...), last), false), "I")
+			c.scope = "C09 C04"
+			c.emit(op, line, "fails-with-data")
+			if st != "ok" {
+				c.addFinding(finding{Property: "C09", Class: "new", What: "the reader does not stop with the underlying reader's error (a Read returned data together with the error): " + st, Input: op, Observed: line})
+				c.addFinding(finding{Property: "C04", Class: "new", What: "an input read error is not reported (a Read returned data together with the error): " + st, Input: op, Observed: line})
+			}
+			continue
+		}
 		line, _, st := implReaderLine(chunks, eof)
+		c.scope = "C09" // arbitrary bytes under arbitrary chunkings: totality only
 		c.emit(readerLine(chunks, eof), line, "random")
 		if st != "ok" {
 			c.addFinding(finding{Property: "C09", Class: "new", What: "reader " + st, Input: readerLine(chunks, eof), Observed: line})
